@@ -52,7 +52,7 @@ static int _GD_pstrlencmp(const char *parent, size_t plen,
   /* Compare in two parts */
   c = memcmp(parent, nameb, plen);
   if (c == 0)
-    c = nameb[plen] - '/';
+    c = '/' - nameb[plen];
   if (c == 0)
     c = memcmp(namea, nameb + plen + 1, total - plen - 1);
 
